@@ -1183,20 +1183,20 @@ def NumText (t : Str) (n : Nat) : Prop :=
   (∃ y ys, t = y :: ys ∧ (isDigit y = true ∨ y = '$')) ∧
   ∀ rest, endsToken rest → eConst (t ++ rest) = some ((n : Int), rest)
 
-/-- first characters no operand starts with (extends `noOperandStart` by `*`) -/
-def noStart (x : Char) : Prop := x = ';' ∨ x = '/' ∨ x = '*'
+/-- first characters no operand starts with (extends `noOperandStart` by `*` and `,`) -/
+def noStart (x : Char) : Prop := x = ';' ∨ x = '/' ∨ x = '*' ∨ x = ','
 
 theorem prefix_heads' (x : Char) (hx : noStart x) : ∀ y ∈ prefixOps, y.1.head? ≠ some x := by
-  rcases hx with rfl | rfl | rfl <;> decide
+  rcases hx with rfl | rfl | rfl | rfl <;> decide
 
 theorem eConst_none' (x : Char) (xs : Str) (hx : noStart x) : eConst (x :: xs) = none := by
-  rcases hx with rfl | rfl | rfl <;> simp [eConst, constAlt, lit, takeWhileP, isDigit] <;> decide
+  rcases hx with rfl | rfl | rfl | rfl <;> simp [eConst, constAlt, lit, takeWhileP, isDigit] <;> decide
 
 theorem atom_not_ok' (x : Char) (xs : Str) (hx : noStart x) : ∀ f e r, parseAtom f (x :: xs) ≠ .ok e r := by
   intro f e r h
-  have hid : identText (x :: xs) = none := by rcases hx with rfl | rfl | rfl <;> simp [identText] <;> decide
-  have hch : ch (x :: xs) = none := by rcases hx with rfl | rfl | rfl <;> simp [ch]
-  have hpar : x ≠ '(' := by rcases hx with rfl | rfl | rfl <;> decide
+  have hid : identText (x :: xs) = none := by rcases hx with rfl | rfl | rfl | rfl <;> simp [identText] <;> decide
+  have hch : ch (x :: xs) = none := by rcases hx with rfl | rfl | rfl | rfl <;> simp [ch]
+  have hpar : x ≠ '(' := by rcases hx with rfl | rfl | rfl | rfl <;> decide
   cases f with
   | zero => simp [parseAtom] at h
   | succ f =>
@@ -1442,7 +1442,7 @@ theorem opEnd_end (ws2 c : Str) (hws2 : blanks ws2) (hc : lineEnd c) : OpEnd (ws
             refine ⟨z, zs, by simp [lit], ?_, ?_⟩
             · rcases hz with rfl | rfl
               · exact Or.inr (Or.inl rfl)
-              · exact Or.inr (Or.inr rfl)
+              · exact Or.inr (Or.inr (Or.inl rfl))
             · rcases hz with rfl | rfl <;> decide
         · left; exact lit_head_ne _ _ _ hne h1
 
@@ -1717,6 +1717,255 @@ example : line ([' '] ++ (['L', 'D', 'I'] ++ ([' '] ++ ((Item.reg false 16).text
       exact ⟨by unfold blanks; decide, by unfold blanks; decide, numText_hex _ (by decide) (by decide) (by decide)⟩)
     (by unfold blanks; decide) (Or.inr ⟨Or.inr rfl, rfl⟩)
 example : value 16 [(false, 1), (true, 15)] = 31 ∧ text [(false, 1), (true, 15)] = ['1', 'F'] := by decide
+
+/-! ### whole lines: a directive with a list of numbers -/
+
+/-- the list tail for any element parser that reads every good item -/
+theorem sepTail_gen {α : Type} (p : Str → PO α) (v : Item → α) (good : Item → Prop)
+    (hread : ∀ it, good it → it.good → ∀ rest, AfterItem rest → p (it.text ++ rest) = .ok (v it) rest) :
+    ∀ (more : List (Str × Str × Item)), itemsOk more → (∀ x ∈ more, good x.2.2) → ∀ (ws2 c : Str), blanks ws2 → lineEnd c →
+    ∀ (f : Nat) (acc : List α), more.length < f →
+      sepTail p f acc (itemsTail more ++ (ws2 ++ c)) = .ok (acc.reverse ++ more.map (fun x => v x.2.2)) (ws2 ++ c) := by
+  intro more
+  induction more with
+  | nil =>
+    intro _ _ ws2 c hws2 hc f acc hf
+    obtain ⟨g, rfl⟩ : ∃ g, f = g + 1 := ⟨f - 1, by omega⟩
+    simp only [itemsTail, List.nil_append, sepTail, delimiter_end ws2 c hws2 hc, List.map_nil, List.append_nil]
+  | cons x xs ih =>
+    intro hm hgd ws2 c hws2 hc f acc hf
+    obtain ⟨a, b, it⟩ := x
+    obtain ⟨g, rfl⟩ : ∃ g, f = g + 1 := ⟨f - 1, by omega⟩
+    have hx := hm _ (List.mem_cons_self ..)
+    have hgx := hgd _ (List.mem_cons_self ..)
+    have hxs : itemsOk xs := fun y hy => hm y (List.mem_cons_of_mem _ hy)
+    have hgxs : ∀ x ∈ xs, good x.2.2 := fun y hy => hgd y (List.mem_cons_of_mem _ hy)
+    have hdel : delimiter (itemsTail ((a, b, it) :: xs) ++ (ws2 ++ c)) = some (it.text ++ (itemsTail xs ++ (ws2 ++ c))) := by
+      unfold delimiter
+      simp only [itemsTail, List.append_assoc, List.cons_append]
+      rw [space_absorbs a _ hx.1]
+      simp only [skipSpace]
+      have : isSpace ',' = false := by decide
+      simp only [this, Bool.false_eq_true, if_false]
+      rw [space_absorbs b _ hx.2.1, skip_item it hx.2.2]
+    have hop := hread it hgx hx.2.2 (itemsTail xs ++ (ws2 ++ c)) (items_after xs hxs ws2 c hws2 hc)
+    simp only [sepTail, hdel, hop]
+    rw [ih hxs hgxs ws2 c hws2 hc g (v it :: acc) (by simp only [List.length_cons] at hf; omega)]
+    simp
+
+def Item.isNum : Item → Prop
+  | .num _ _ => True
+  | .reg _ _ => False
+
+def Item.operand : Item → Operand
+  | .num _ n => .e (.const (n : Int))
+  | .reg _ k => .e (.const (k : Int))
+
+theorem directiveOp_num (it : Item) (hnum : it.isNum) (hg : it.good) (rest : Str) (hr : AfterItem rest) :
+    directiveOp (it.text ++ rest) = .ok it.operand rest := by
+  cases it with
+  | reg up k => exact absurd hnum (by simp [Item.isNum])
+  | num t n =>
+    have he := expr_num t n hg rest hr.2.1 hr.2.2
+    simp only [Item.text, Item.operand]
+    unfold directiveOp
+    simp only [he]
+
+theorem expr_fails' (x : Char) (xs : Str) (hx : noStart x) : expr (x :: xs) = .fail := by
+  unfold expr
+  rw [exprFuel_eq]
+  exact infix_fails x xs hx _ (Nat.mul_le_mul_right K (by simp)) 0
+
+/-- nothing a directive operand could be starts with `,`, `;`, `/`, or with nothing -/
+theorem directiveOp_fails (s : Str) (hs : s = [] ∨ ∃ x xs, s = x :: xs ∧ noStart x) : directiveOp s = .fail := by
+  rcases hs with rfl | ⟨x, xs, rfl, hx⟩
+  · unfold directiveOp; simp [expr_fails_nil, Peg.string]
+  · have hq : x ≠ '"' := by rcases hx with rfl | rfl | rfl | rfl <;> decide
+    have hstr : Peg.string (x :: xs) = none := by
+      unfold Peg.string
+      split
+      · rename_i cs heq; simp only [List.cons.injEq] at heq; exact absurd heq.1 hq
+      · rfl
+    unfold directiveOp
+    simp only [expr_fails' x xs hx, hstr]
+
+/-- behind an operand, after the blanks: nothing, or a comma, or the start of a comment -/
+theorem after_skip (more : List (Str × Str × Item)) (hm : itemsOk more) (ws2 c : Str) (hws2 : blanks ws2) (hc : lineEnd c) :
+    skipSpace (itemsTail more ++ (ws2 ++ c)) = [] ∨
+      ∃ x xs, skipSpace (itemsTail more ++ (ws2 ++ c)) = x :: xs ∧ noStart x := by
+  cases more with
+  | nil =>
+    simp only [itemsTail, List.nil_append]
+    rw [skip_tail ws2 c hws2 hc]
+    rcases hc with rfl | ⟨hs, _⟩
+    · exact Or.inl rfl
+    · cases c with
+      | nil => exact Or.inl rfl
+      | cons y ys =>
+        right
+        refine ⟨y, ys, rfl, ?_⟩
+        rcases hs with h | h <;> (simp at h; subst h)
+        · exact Or.inl rfl
+        · exact Or.inr (Or.inl rfl)
+  | cons x xs =>
+    obtain ⟨a, b, it⟩ := x
+    have ha : blanks a := (hm _ (List.mem_cons_self ..)).1
+    right
+    refine ⟨',', b ++ (it.text ++ itemsTail xs) ++ (ws2 ++ c), ?_, Or.inr (Or.inr (Or.inr rfl))⟩
+    have hform : itemsTail ((a, b, it) :: xs) ++ (ws2 ++ c) = a ++ ',' :: (b ++ (it.text ++ itemsTail xs) ++ (ws2 ++ c)) := by
+      simp [itemsTail]
+    rw [hform, space_absorbs a _ ha]
+    simp +decide [skipSpace]
+
+theorem spacedOps_fail_at (Z : Str) (hZ : Z = [] ∨ ∃ x xs, Z = x :: xs ∧ noStart x) : ∀ k, spacedOps (k + 1) Z = .fail := by
+  intro k
+  have hf := directiveOp_fails Z hZ
+  cases k with
+  | zero => simp only [spacedOps, hf]
+  | succ k => simp only [spacedOps, hf]
+
+/-- the "pragma hack" alternatives (2..6 operands separated by blanks only) do not apply to a comma list -/
+theorem spacedOps_fail (it : Item) (hnum : it.isNum) (hg : it.good) (more : List (Str × Str × Item)) (hm : itemsOk more)
+    (ws2 c : Str) (hws2 : blanks ws2) (hc : lineEnd c) :
+    ∀ k, spacedOps (k + 2) (it.text ++ (itemsTail more ++ (ws2 ++ c))) = .fail := by
+  intro k
+  have hop := directiveOp_num it hnum hg _ (items_after more hm ws2 c hws2 hc)
+  have hZ := after_skip more hm ws2 c hws2 hc
+  simp only [spacedOps, hop]
+  cases hrest : itemsTail more ++ (ws2 ++ c) with
+  | nil => simp [neSpace]
+  | cons y ys =>
+    rw [hrest] at hZ
+    cases hsp : isSpace y with
+    | true =>
+      have hsk : skipSpace (y :: ys) = skipSpace ys := by simp [skipSpace, hsp]
+      rw [hsk] at hZ
+      simp only [neSpace, hsp, if_true]
+      rw [spacedOps_fail_at (skipSpace ys) hZ k]
+    | false => simp [neSpace, hsp]
+
+theorem directiveOps_numbers (it : Item) (hnum : it.isNum) (hg : it.good) (more : List (Str × Str × Item)) (hm : itemsOk more)
+    (hnums : ∀ x ∈ more, x.2.2.isNum) (ws2 c : Str) (hws2 : blanks ws2) (hc : lineEnd c) :
+    directiveOps (it.text ++ (itemsTail more ++ (ws2 ++ c))) =
+      .ok (.opList (it.operand :: more.map (fun x => x.2.2.operand))) (ws2 ++ c) := by
+  have hsp := spacedOps_fail it hnum hg more hm ws2 c hws2 hc
+  have hop := directiveOp_num it hnum hg _ (items_after more hm ws2 c hws2 hc)
+  -- the list
+  have hlist : sepList directiveOp (it.text ++ (itemsTail more ++ (ws2 ++ c))) =
+      .ok (it.operand :: more.map (fun x => x.2.2.operand)) (ws2 ++ c) := by
+    unfold sepList
+    simp only [hop]
+    rw [sepTail_gen directiveOp Item.operand Item.isNum (fun it h1 h2 rest hr => directiveOp_num it h1 h2 rest hr)
+      more hm hnums ws2 c hws2 hc _ [it.operand] (by
+        have := items_len more
+        simp only [List.length_append]
+        omega)]
+    simp
+  -- no assignment: the text does not start with an identifier
+  have hid : identText (it.text ++ (itemsTail more ++ (ws2 ++ c))) = none := by
+    cases it with
+    | reg up k => exact absurd hnum (by simp [Item.isNum])
+    | num t n =>
+      obtain ⟨y, ys, hs, hy⟩ := numText_head t n hg (itemsTail more ++ (ws2 ++ c))
+      simp only [Item.text]
+      rw [hs]
+      have hnid : isIdentStart y = false := by
+        rcases hy with h | rfl
+        · cases hi : isIdentStart y with
+          | false => rfl
+          | true =>
+            exfalso
+            have := cls_sub
+            simp only [isIdentStart, isAlpha, Bool.or_eq_true, beq_iff_eq] at hi
+            simp only [isDigit, Bool.and_eq_true, decide_eq_true_eq] at h
+            rcases hi with (hi | hi) | rfl
+            · simp only [Bool.and_eq_true, decide_eq_true_eq] at hi
+              have h1 := hi.1; have h2 := h.2
+              simp only [Char.le_def, UInt32.le_iff_toNat_le] at h1 h2
+              have : 'a'.val.toNat = 97 := by decide
+              have : '9'.val.toNat = 57 := by decide
+              omega
+            · simp only [Bool.and_eq_true, decide_eq_true_eq] at hi
+              have h1 := hi.1; have h2 := h.2
+              simp only [Char.le_def, UInt32.le_iff_toNat_le] at h1 h2
+              have : 'A'.val.toNat = 65 := by decide
+              have : '9'.val.toNat = 57 := by decide
+              omega
+            · revert h; decide
+        · decide
+      simp [identText, hnid]
+  unfold directiveOps
+  simp only [hid]
+  simp only [directiveOps.tryN, hsp 4, hsp 3, hsp 2, hsp 1, hsp 0, hlist]
+
+/-- **A directive followed by a list of numbers** (`.db 1, 0x10 ,$ff ; table` and the like) — indented
+    or not, any directive name, numbers in any spelling `e_const` reads, any blanks around every
+    comma, any blanks and any comment (or nothing) at the end — is that directive with exactly
+    those numbers as its operand list -/
+theorem number_directive_line (ws1 name wsA : Str) (it : Item) (more : List (Str × Str × Item)) (ws2 c : Str)
+    (hws1 : blanks ws1) (hname : name ≠ []) (hlow : ∀ ch ∈ name, isLowerAlpha ch = true)
+    (hwsA : blanks wsA) (hA : wsA ≠ []) (hnum : it.isNum) (hg : it.good) (hm : itemsOk more)
+    (hnums : ∀ x ∈ more, x.2.2.isNum) (hws2 : blanks ws2) (hc : lineEnd c) :
+    line (ws1 ++ ('.' :: (name ++ (wsA ++ (it.text ++ (itemsTail more ++ (ws2 ++ c))))))) =
+      .ok (.directiveLine none (directiveOfName name) (.opList (it.operand :: more.map (fun x => x.2.2.operand)))) := by
+  obtain ⟨w, ws, rfl⟩ : ∃ w ws, wsA = w :: ws := by
+    cases wsA with
+    | nil => exact absurd rfl hA
+    | cons w ws => exact ⟨w, ws, rfl⟩
+  have hw : isSpace w = true := hwsA w (by simp)
+  have hwl : isLowerAlpha w = false := by
+    simp only [isSpace, Bool.or_eq_true, beq_iff_eq] at hw
+    rcases hw with rfl | rfl <;> decide
+  have hdo := directiveOps_numbers it hnum hg more hm hnums ws2 c hws2 hc
+  have hsr := skip_item it hg (itemsTail more ++ (ws2 ++ c))
+  generalize hR : it.text ++ (itemsTail more ++ (ws2 ++ c)) = R at hdo hsr ⊢
+  have hlab : label (ws1 ++ ('.' :: (name ++ ((w :: ws) ++ R)))) = none := by
+    cases ws1 with
+    | nil => simp +decide [label, identText]
+    | cons v vs =>
+      have hv : isSpace v = true := hws1 v (by simp)
+      have : isIdentStart v = false := by
+        simp only [isSpace, Bool.or_eq_true, beq_iff_eq] at hv
+        rcases hv with rfl | rfl <;> decide
+      simp [label, identText, this]
+  have hsk : skipSpace (ws1 ++ ('.' :: (name ++ ((w :: ws) ++ R)))) = '.' :: (name ++ ((w :: ws) ++ R)) := by
+    rw [space_absorbs ws1 _ hws1]; simp +decide [skipSpace]
+  have htw : takeWhileP isLowerAlpha (name ++ ((w :: ws) ++ R)) = (name, (w :: ws) ++ R) :=
+    takeWhile_all isLowerAlpha name _ hlow (by intro y hy; simp at hy; subst hy; exact hwl)
+  have hdir : directive ('.' :: (name ++ ((w :: ws) ++ R))) = some (directiveOfName name, (w :: ws) ++ R) := by
+    have hne : name.isEmpty = false := by cases name with | nil => exact absurd rfl hname | cons _ _ => rfl
+    simp only [directive, htw, hne]
+    simp +decide
+  have hsA : skipSpace ((w :: ws) ++ R) = R := by
+    rw [space_absorbs (w :: ws) _ hwsA]; exact hsr
+  have hst := skip_tail ws2 c hws2 hc
+  unfold line
+  simp only [optLabel, hlab]
+  simp only [hsk]
+  simp only [hdir]
+  simp only [hsA]
+  simp only [hdo]
+  simp only [hst]
+  rcases hc with rfl | ⟨_, hcom⟩
+  · simp [comment]
+  · simp only [hcom]; simp
+
+/-! non-vacuity: `.db 10 ,0x1F ; t` -/
+example : line ([] ++ ('.' :: (['d', 'b'] ++ ([' '] ++ ((Item.num (text [(false, 1), (false, 0)]) (value 10 [(false, 1), (false, 0)])).text ++
+      (itemsTail [([' '], [], Item.num ('0' :: 'x' :: text [(false, 1), (true, 15)]) (value 16 [(false, 1), (true, 15)]))] ++ ([' '] ++ [';', ' ', 't']))))))) =
+    .ok (.directiveLine none (directiveOfName ['d', 'b'])
+      (.opList [Operand.e (.const ((value 10 [(false, 1), (false, 0)] : Nat) : Int)), Operand.e (.const ((value 16 [(false, 1), (true, 15)] : Nat) : Int))])) :=
+  number_directive_line _ _ _ _ _ _ _ (by unfold blanks; decide) (by decide) (by decide)
+    (by unfold blanks; decide) (by decide) trivial
+    (numText_dec _ (by decide) (by decide) (Or.inr ⟨_, _, rfl, by decide⟩))
+    (by
+      intro x hx
+      simp only [List.mem_singleton] at hx
+      subst hx
+      exact ⟨by unfold blanks; decide, by unfold blanks; decide, numText_hex _ (by decide) (by decide) (by decide)⟩)
+    (by intro x hx; simp only [List.mem_singleton] at hx; subst hx; trivial)
+    (by unfold blanks; decide) (Or.inr ⟨Or.inl rfl, rfl⟩)
+example : directiveOfName ['d', 'b'] = .db ∧ value 10 [(false, 1), (false, 0)] = 10 := by decide
 
 end Numbers
 
